@@ -102,7 +102,7 @@ class Coerce:
         return type(other) is Coerce and other.site == self.site
 
     def __hash__(self):
-        return hash(("Coerce", self.site))
+        return 77 if self.site is None else 78
 
 
 def make_validator(vkind, site):
